@@ -68,6 +68,10 @@ pub enum Kind {
     Quintic,
     Poly,
     NoRoot,
+    /// s*(x-r)^k, k = c odd in 9..31: values underflow near the root (flat-near-root family)
+    OddPower,
+    /// s*sign(x-r)*exp(-1/(c*(x-r))^2): all derivatives vanish at the root
+    FlatExp,
 }
 
 #[derive(Clone, Debug)]
@@ -102,6 +106,15 @@ impl Func {
                 p
             }
             Kind::NoRoot => self.s * (d * d + self.c),
+            Kind::OddPower => self.s * d.powi(self.c as i32),
+            Kind::FlatExp => {
+                let u = self.c * d;
+                if u == 0.0 {
+                    0.0
+                } else {
+                    self.s * u.signum() * (-1.0 / (u * u)).exp()
+                }
+            }
         }
     }
     /// distance from x to the nearest root (evidence only; the verdict uses the sign change)
@@ -141,6 +154,8 @@ impl Func {
             Kind::Quintic => "s*(x-r)^5",
             Kind::Poly => "s*prod(x-roots[i])",
             Kind::NoRoot => "s*((x-r)^2+c)",
+            Kind::OddPower => "s*(x-r)^c (c odd, 9..31)",
+            Kind::FlatExp => "s*sign(x-r)*exp(-1/(c*(x-r))^2)",
         }
     }
     fn to_json(&self) -> J {
@@ -475,8 +490,14 @@ pub fn gen_problem(rng: &mut Rng) -> Problem {
     let r = gen_centre(rng);
     let s = rng.sign() * rng.r(0.2, 3.0);
     let c = rng.r(0.2, 3.0);
-    let kinds = [Kind::Lin, Kind::Lin, Kind::Cubic, Kind::Exp, Kind::Exp, Kind::Sin, Kind::Sin, Kind::Tanh, Kind::CubicPlus, Kind::Quintic, Kind::Poly, Kind::Poly, Kind::Poly];
+    let kinds = [Kind::Lin, Kind::Lin, Kind::Cubic, Kind::Exp, Kind::Exp, Kind::Sin, Kind::Sin, Kind::Tanh, Kind::CubicPlus, Kind::Quintic, Kind::Poly, Kind::Poly, Kind::Poly, Kind::OddPower, Kind::FlatExp];
     let kind = *rng.pick(&kinds);
+    // flat-near-root members: values (and products of values) underflow close to the root
+    let c = match kind {
+        Kind::OddPower => (9 + 2 * rng.below(12)) as f64,
+        Kind::FlatExp => rng.r(0.5, 3.0),
+        _ => c,
+    };
     let mut end_root = false;
     let (f, mut a, mut b);
     match kind {
@@ -514,7 +535,19 @@ pub fn gen_problem(rng: &mut Rng) -> Problem {
             let maxw: f64 = if kind == Kind::Sin { 3.0 / c } else { 4.0 };
             a = r - rng.log10(-2.0, maxw.log10());
             b = r + rng.log10(-2.0, maxw.log10());
-            if rng.below(8) == 0 {
+            let flat = matches!(kind, Kind::OddPower | Kind::FlatExp);
+            if flat {
+                // the premise "values of opposite signs at the two ends" needs end values that are
+                // not lost to underflow: move an end point outwards until |f| is a normal number
+                let probe = Func::simple(kind, r, s, c);
+                while probe.eval(a).abs() < 1e-200 {
+                    a = r - 2.0 * (r - a);
+                }
+                while probe.eval(b).abs() < 1e-200 {
+                    b = r + 2.0 * (b - r);
+                }
+            }
+            if !flat && rng.below(8) == 0 {
                 end_root = true;
                 if rng.bool() {
                     a = r;
